@@ -391,6 +391,11 @@ func gen(seed uint64, tier string) {
 		}
 		fmt.Fprintln(out, sb.String())
 	}
+	// closed cycles of member lines through shared junctions, very many members, empty member polygons
+	cycleCorpus(emit)
+	cycleCases(r, n/20, emit)
+	manyMembers(r, emit)
+	emptyMemberCases(r, n/60, emit)
 }
 
 // scaleFor picks the coordinate scale of a case: mostly 1, otherwise a power of two.
